@@ -11,6 +11,10 @@ open GoUtils GoUtils.Hash
 
 theorem C20_facts_extracted : Generated.Hash.ok = true := by decide
 
+/-- every hasher object owns its state: each `NewHashingAlgorithm` call constructs the underlying hash, and no
+    package-level variable holds a hash state (so the model's one-object histories are the whole story) -/
+theorem C20_fresh_state_per_hasher : Generated.Hash.freshStatePerHasher = true := by decide
+
 /-- FULL statement: for every hash function `H`, every history of calculations on one (initially
     fresh) hasher — successful, failed or cancelled after any number of bytes — and every chunking
     of every reader, each successful calculation returns `H` of its own content, and failed ones
